@@ -157,3 +157,53 @@ let blkrecv toks =
   | _ -> failwith "blkrecv args"
 
 let () = register "blkwire" blkwire; register "blkrecv" blkrecv
+
+(* ---- scripted peer (harness/h_block_e2e.c, command "peer") ----
+   blkpeer <b1|b2> <len> <seed> <maxszx> <item>...  item = num/m/szx/size/off/len/tag
+   b1: the lg_srcv table model (blk_srv_recv, Request-Tags); b2: blk_cli_recv (ETags) *)
+let sub l off len =
+  let rec drop n l = if n <= 0 then l else match l with [] -> [] | _ :: t -> drop (n - 1) t in
+  let rec take n l = if n <= 0 then [] else match l with [] -> [] | x :: t -> x :: take (n - 1) t in
+  take len (drop off l)
+
+let blkpeer toks =
+  match toks with
+  | dir :: len :: seed :: mx :: items ->
+      let blen = int_of_string len in
+      let body = body_of blen (int_of_string seed) in
+      let junk _ = z_of_int (-1) in
+      let tab = ref [] and cst = ref { cr_etag = None; cr_st = None } in
+      let show o =
+        match o with
+        | BoDeliver d ->
+            if List.exists (fun x -> int_of_z x < 0) d then "D?"
+            else Printf.sprintf "D:%d:%08x" (List.length d) (fnv d)
+        | BoPass -> "P"
+        | o -> out_letter o in
+      let res = List.map (fun it ->
+          match String.split_on_char '/' it with
+          | [n; m; s; sz; off; ln; tag] ->
+              let off = max 0 (min blen (int_of_string off)) in
+              let ln = max 0 (min (blen - off) (int_of_string ln)) in
+              let a = { ba_num = zi n; ba_m = zi m; ba_szx = zi s;
+                        ba_size = (if sz = "-" then None else Some (zi sz));
+                        ba_data = sub body off ln } in
+              let tg = if tag = "-" then None else Some (zi tag) in
+              if dir = "b1" then begin
+                let (t', o) = blk_srv_recv junk (zi mx) !tab { rq_rtag = tg; rq_arr = a } in
+                tab := t';
+                (match o with
+                 | BoPass -> Printf.sprintf "P:%d:%08x" ln (fnv a.ba_data)
+                 | o -> show o)
+              end else begin
+                let ((c', o), _) = blk_cli_recv junk !cst { rs_etag = tg; rs_arr = a } in
+                cst := c';
+                (match o with
+                 | BoPass -> Printf.sprintf "P:%d:%08x" ln (fnv a.ba_data)
+                 | o -> show o)
+              end
+          | _ -> "BADITEM") items in
+      String.concat " " res ^ " END"
+  | _ -> failwith "blkpeer args"
+
+let () = register "blkpeer" blkpeer
